@@ -344,6 +344,23 @@ func c02(repo string, out *fg.Out) error {
 	if negDivides(typedF, tfn) != 1 {
 		return fmt.Errorf("decodeTimeColumnTyped: expected exactly one `if multiplier < 0` (divide) branch")
 	}
+	// scaling statements: every assignment to arr[i] / ts (typed) and timeCol[i] (generic), as source text
+	assigns := func(f *fg.File, fn *ast.FuncDecl, lhs string) []string {
+		var out []string
+		ast.Inspect(fn, func(x ast.Node) bool {
+			if as, ok := x.(*ast.AssignStmt); ok && len(as.Lhs) == 1 && len(as.Rhs) == 1 && f.Text(as.Lhs[0]) == lhs {
+				out = append(out, strings.Join(strings.Fields(f.Text(as.Rhs[0])), " "))
+			}
+			return true
+		})
+		return out
+	}
+	fmt.Fprintf(L, "def typedTimeScale : List String := %s\n", leanStrList(assigns(typedF, tfn, "arr[i]")))
+	fmt.Fprintf(L, "def typedTimeElem : List String := %s\n", leanStrList(assigns(typedF, tfn, "ts")))
+	fmt.Fprintf(L, "def normTimeScale : List String := %s\n", leanStrList(assigns(genF, nfn, "timeCol[i]")))
+	out.JSON["typedTimeScale"] = assigns(typedF, tfn, "arr[i]")
+	out.JSON["typedTimeElem"] = assigns(typedF, tfn, "ts")
+	out.JSON["normTimeScale"] = assigns(genF, nfn, "timeCol[i]")
 	L.WriteString(nt.lean("norm"))
 	L.WriteString(tt.lean("typed"))
 	L.WriteString("\n")
